@@ -62,13 +62,22 @@ class Tokenizer:
             else:
                 tok = self._next_raw()
             # remember the text of every line seen, blank and comment-only ones included
-            if not self._path and tok.start[0] not in self._lines:
-                self._lines[tok.start[0]] = tok.line
+            if not self._path:
+                for lnum, text in self.physical_lines(tok):
+                    self._lines.setdefault(lnum, text)
             if self.is_blank(tok):
                 continue
 
             self._tokens.append(tok)
         return self._tokens[self._index]
+
+    @staticmethod
+    def physical_lines(tok: TokenInfo) -> list[tuple[int, str]]:
+        """(line number, text) of the lines a token lies on; a token's `line` holds all of them when it spans several."""
+        lines = tok.line.splitlines(keepends=True)
+        if len(lines) != tok.end[0] - tok.start[0] + 1:
+            lines = lines[:1]
+        return list(enumerate(lines, tok.start[0]))
 
     def is_blank(self, tok: TokenInfo) -> bool:
         if self._proc_macro and tok.type == Token.WS:
@@ -155,8 +164,9 @@ class Tokenizer:
                     continue
 
             # update captured lines
-            if tok.start[0] not in lines:
-                lines[tok.start[0]] = tok.line if is_indented else tok.line[tok.start[1] :]
+            for lnum, text in self.physical_lines(tok):
+                if lnum not in lines:
+                    lines[lnum] = text if is_indented or lnum > tok.start[0] else text[tok.start[1] :]
 
         string = "".join(lines.values())
         if is_indented:
